@@ -25,7 +25,7 @@ LEVEL = "exploration"
 RULE = (
     "Hypothesis draws pairs of small runs (A, B) with <=6 (quick) / <=8 (thorough) objective calls each, optional gradient scaler; ALL interleavings of their objective calls on two threads are "
     "enumerated through a harness-owned baton (up to 252 words per pair in quick, 3432 in thorough; a deterministic stride sample beyond), plus nested invocations (B minimised completely inside A's "
-    "objective at a drawn call), read-only and integer-typed x0/bounds/checkpoint arrays, restart twice from the same checkpoint object (with and without scaler), every iprint level with and without "
+    "objective at a drawn call), read-only and integer-typed x0/bounds/checkpoint arrays, a user gradient that returns one reused output buffer (must not be modified nor aliased), restart twice from the same checkpoint object (with and without scaler), every iprint level with and without "
     "logger, and a free-running two-thread run with a 1 microsecond switch interval. Oracle: bitwise equality with the solo result computed first; inputs byte-identical afterwards. "
     "non-trivial = the schedule switches threads >=2 times while both runs are inside their main loop, or the call is nested, or an input is read-only / a checkpoint; distinct = distinct (pair, schedule)"
 )
@@ -216,6 +216,15 @@ def check_inputs(spec, stats=None):
     else:
         require(bv == b_copy, f"inputs-untouched[bounds,{variant}]", "bounds modified")
     same(base, tr, f"input-variant-{variant}")
+    # --- a gradient callable that reuses one preallocated output array (user-owned data)
+    if rspec["jac"] == "callable":
+        tb = execute(rspec, prob=prob, jac_style="buffer")
+        if tb.exc is not None:
+            raise Violation("inputs-accepted[jac-output-buffer]", f"raised {type(tb.exc).__name__}: {tb.exc}")
+        require(tb.user_array_modified == 0, "inputs-untouched[array-returned-by-user-gradient]",
+                f"the array returned by the user's gradient was modified by the library {tb.user_array_modified} time(s)")
+        same(base, tb, "gradient-returns-reused-buffer")
+        label += "+jacbuf"
     # --- integer x0 on an integer-feasible box: result equals the float run
     if spec.get("int_x0"):
         xi = np.round(prob.x0).astype(np.int64)
